@@ -557,6 +557,24 @@ def readHead (cur : Bytes) : Except CErr (UInt8 × Nat × Bytes) :=
       | .ok (idx, cur2) => .ok (block, idx, cur2)
     else .ok (block, 0, cur1)
 
+/-- a struct-shaped object: size, body (empty = `Reset`), first mask byte with optional variant index (`ui` is the only
+index accepted when one is on the wire), fields; what is left of the body is dropped -/
+def readStructObj (rd : Rd2) (skip : Nat → Bool → Bytes → Except CErr Bytes) (z : Nat → Val) (isTrue : Nat → Bool)
+    (fields : List Field) (ui : Nat) (bs : Bytes) : Except CErr (List (Option Val) × Bytes) :=
+  match sliceBody bs with
+  | .error e => .error e
+  | .ok (cur, rest) =>
+    if cur.isEmpty then .ok (zeroFieldsWith z fields, rest)
+    else
+      match readHead cur with
+      | .error e => .error e
+      | .ok (block, idx, cur1) =>
+        if block.toNat % 2 == 1 && idx ≠ ui then .error .rej
+        else
+          match readFields2With rd skip z isTrue 0 block fields cur1 with
+          | .error e => .error e
+          | .ok fs => .ok (fs, rest)
+
 def padTo (n : Nat) (z : Val) (vs : List Val) : List Val := vs ++ List.replicate (n - vs.length) z
 
 def readTL2 (d : Desc) : Nat → Rd2
@@ -574,21 +592,11 @@ def readTL2 (d : Desc) : Nat → Rd2
           | .ok (v, r) => .ok (.struct [some v], r)
         | _ => .error .desc
       else
-        match sliceBody bs with
+        -- a plain struct accepts only index 0; a union variant read on its own checks its own number,
+        -- and only when the index is present on the wire
+        match readStructObj (readTL2 d fuel) (skipTL2 d fuel) (zeroVal d fuel) (isTrueTy d) s.fields (structUI s) bs with
         | .error e => .error e
-        | .ok (cur, rest) =>
-          if cur.isEmpty then .ok (.struct (zeroFieldsWith (zeroVal d fuel) s.fields), rest)
-          else
-            match readHead cur with
-            | .error e => .error e
-            | .ok (block, idx, cur1) =>
-              -- a plain struct accepts only index 0; a union variant read on its own checks its own number,
-              -- and only when the index is present on the wire
-              if block.toNat % 2 == 1 && idx ≠ structUI s then .error .rej
-              else
-                match readFields2With (readTL2 d fuel) (skipTL2 d fuel) (zeroVal d fuel) (isTrueTy d) 0 block s.fields cur1 with
-                | .error e => .error e
-                | .ok fs => .ok (.struct fs, rest)
+        | .ok (fs, rest) => .ok (.struct fs, rest)
     | some (.union u) =>
       match sliceBody bs with
       | .error e => .error e
